@@ -21,7 +21,7 @@ import (
 func init() {
 	Registry["C14"] = &Check{
 		Scenarios: c14Scenarios,
-		Rule: "events: CloseNotify requested {inside the first handler, by a free application thread at every possible instant (in particular while the reader is parked in Read), twice (handler + thread), after termination}; two messages delivered in three fragments (one fragment boundary inside the first header); termination by {peer EOF, transport read error, undecodable header followed by trailing bytes, local Close from a free thread at every instant, a handler panic on the second message (recovered by the serve loop)}; an observer thread records the instant the channel closes. The requesting / closing / observing threads and the peer are environment threads, so every ordering of their steps against the library's steps is explored even at preemption bound 0; library preemption bound 2 (quick) / unbounded (thorough). Also sm.Client with the watchdog enabled followed by a quiet peer close (virtual time, horizon 12 s).",
+		Rule: "events: CloseNotify requested {inside the first handler, by a free application thread at every possible instant (in particular while the reader is parked in Read), twice (handler + thread), after termination}; two messages delivered in three fragments (one fragment boundary inside the first header); termination by {peer EOF, transport read error, undecodable header followed by trailing bytes, local Close from a free thread at every instant, a handler panic on the second message (recovered by the serve loop)}; an observer thread records the instant the channel closes. The requesting / closing / observing threads and the peer are environment threads, so every ordering of their steps against the library's steps is explored even at preemption bound 0; library preemption bound 2 (quick) / unbounded (thorough). The same request modes {handler, thread, after} x terminations {EOF, undecodable input, local Close} on a multistream (in-memory SCTP) connection, where CloseNotify installs a read-error handler. Also sm.Client with the watchdog enabled followed by a quiet peer close (virtual time, horizon 12 s).",
 		Assume: []string{"data-race freedom between visible operations (audited separately with -race)", "io.Pipe is modelled by vsched.Pipe (Write blocks until the data is consumed or either end is closed)"},
 		QuickBudget: 100, ThoroughBudget: 1500,
 	}
@@ -59,6 +59,11 @@ func c14Scenarios(tier string) []*Scenario {
 				b = 1 // the largest product space: bound 1 in the quick tier, unbounded in the thorough tier
 			}
 			out = append(out, c14Scenario(req, term, b))
+		}
+	}
+	for _, req := range []string{"handler", "thread", "after"} {
+		for _, term := range []string{"eof", "garbage", "localclose"} {
+			out = append(out, c14Multi(req, term, bound))
 		}
 	}
 	out = append(out, c14Watchdog(bound))
@@ -226,6 +231,103 @@ func c14Scenario(req, term string, bound int) *Scenario {
 	}
 	return &Scenario{Name: fmt.Sprintf("closenotify/%s/%s", req, term), Body: body, Check: check, Outcome: outcome, Bound: bound,
 		Split: false, Weight: map[bool]int{true: 10, false: 0}[req == "both"] + map[bool]int{true: 5, false: 0}[term == "localclose"] + map[bool]int{true: 2, false: 0}[req == "thread"]}
+}
+
+// c14Multi: the same protocol on a multistream (SCTP) connection, where CloseNotify installs a
+// read-error handler instead of the pipe copier.
+func c14Multi(req, term string, bound int) *Scenario {
+	m1, m2 := c14msg(1), c14msg(2)
+	type mst struct {
+		be      *vnet.SCTP
+		chs     []*vs.Chan[struct{}]
+		handled []uint32
+		term    bool
+		early   string
+	}
+	var st *mst
+	body := func() {
+		st = &mst{}
+		be := vnet.NewSCTP("M")
+		st.be = be
+		request := func(c diam.Conn) {
+			ch := c.(diam.CloseNotifier).CloseNotify()
+			st.chs = append(st.chs, ch)
+			vs.GoNamed("observer", true, func() {
+				ch.Recv2()
+				if !st.term && !be.Closed {
+					st.early = "a CloseNotify channel of a multistream connection was closed before any terminating event"
+				}
+			})
+		}
+		mux := diam.NewServeMux()
+		mux.HandleFunc("ALL", func(c diam.Conn, m *diam.Message) {
+			st.handled = append(st.handled, m.Header.HopByHopID)
+			if req == "handler" && len(st.handled) == 1 {
+				request(c)
+			}
+		})
+		c, err := diam.NewConn(diam.NewSCTPConnBackend(be), "peer", mux, dict.Default)
+		if err != nil {
+			panic(err)
+		}
+		switch req {
+		case "thread":
+			vs.GoNamed("app-request", true, func() { request(c) })
+		case "after":
+			vs.GoNamed("app-request-after", true, func() {
+				vs.BlockObj("wait-closed", be, func() bool { return be.Closed })
+				request(c)
+			})
+		}
+		vs.GoNamed("peer", true, func() {
+			be.Deliver(3, m1[:10])
+			vs.Yield("env")
+			be.Deliver(3, m1[10:])
+			vs.Yield("env")
+			be.Deliver(5, m2)
+			vs.Yield("env")
+			switch term {
+			case "eof":
+				st.term = true
+				be.PeerEOF()
+			case "garbage":
+				bad := make([]byte, 60)
+				bad[0], bad[3] = 1, 60
+				bad[5], bad[6], bad[7] = 0xff, 0xff, 0xfe
+				st.term = true
+				be.Deliver(3, bad)
+			}
+		})
+		if term == "localclose" {
+			vs.GoNamed("app-close", true, func() { st.term = true; c.Close() })
+		}
+	}
+	check := func(s *vs.Sched) string {
+		var v []string
+		if p := s.Panics(); len(p) > 0 {
+			v = append(v, "panic: "+strings.Join(p, "; "))
+		}
+		if st.early != "" {
+			v = append(v, st.early)
+		}
+		if !st.be.Closed {
+			v = append(v, "the association was never closed although "+term+" occurred")
+		}
+		for i, ch := range st.chs {
+			if st.be.Closed && !ch.IsClosed() {
+				v = append(v, fmt.Sprintf("multistream connection terminated (%s) but CloseNotify channel %d (requested: %s) was never closed", term, i, req))
+			}
+		}
+		if term != "localclose" && fmt.Sprint(st.handled) != "[1 2]" {
+			v = append(v, fmt.Sprintf("handlers saw messages %v, the peer delivered [1 2]", st.handled))
+		}
+		if b := s.BlockedLib(); len(b) > 0 && st.be.Closed {
+			v = append(v, "library goroutines still alive after the association terminated: "+strings.Join(b, ", "))
+		}
+		return strings.Join(v, " | ")
+	}
+	return &Scenario{Name: fmt.Sprintf("closenotify-multistream/%s/%s", req, term), Body: body, Check: check, Bound: bound,
+		Outcome: func(s *vs.Sched) string { return fmt.Sprintf("chs=%d handled=%v closed=%v", len(st.chs), st.handled, st.be.Closed) }}
 }
 
 // c14Watchdog: sm.Client with the watchdog on; the peer answers the CER and then closes
